@@ -600,6 +600,43 @@ fn print_char_instances(rep: &mut Report) {
     one!('\u{10ffff}');
 }
 
+/// Reading the printed output is an observation: reading it twice gives the same text, and a
+/// state whose output was read and that then prints more holds exactly the old text followed
+/// by the new one (performed directly and by running a program on that state).
+fn output_read_is_an_observation(rep: &mut Report) {
+    use push::instruction::{printing::PrintString, Instruction, PushInstruction};
+    use push::push_vm::{push_state::PushState, State};
+    for (first, second) in [("ab", "c"), ("", "x"), ("héllo wörld, 🦀", "!"), ("0123456789012345678901234567890123456789", "tail"), ("x", "")] {
+        rep.eval();
+        rep.count("output-read-then-continue");
+        rep.distinct(fnv_str(&format!("outread{first}{second}")));
+        let r = vh_core::catch(|| -> Result<Vec<String>, String> {
+            let built = PushState::builder()
+                .with_max_stack_size(8)
+                .with_program([PushProgram::Instruction(PushInstruction::PrintString(PrintString(second.to_string()))), PushProgram::Instruction(PushInstruction::PrintString(PrintString("#".to_string())))])
+                .map_err(|e| format!("{e:?}"))?
+                .with_instruction_step_limit(10)
+                .build();
+            let mut st = PushInstruction::PrintString(PrintString(first.to_string())).perform(built).map_err(|e| format!("{:?}", e.error()))?;
+            let mut seen = Vec::new();
+            seen.push(st.stdout_string().map_err(|e| e.to_string())?);
+            seen.push(st.stdout_string().map_err(|e| e.to_string())?);
+            let mut st = PushInstruction::PrintString(PrintString(second.to_string())).perform(st).map_err(|e| format!("{:?}", e.error()))?;
+            seen.push(st.stdout_string().map_err(|e| e.to_string())?);
+            let mut done = st.run_to_completion().map_err(|_| "the run aborted".to_string())?;
+            seen.push(done.stdout_string().map_err(|e| e.to_string())?);
+            seen.push(done.stdout_string().map_err(|e| e.to_string())?);
+            Ok(seen)
+        });
+        let all = format!("{first}{second}{second}#");
+        let want = vec![first.to_string(), first.to_string(), format!("{first}{second}"), all.clone(), all];
+        match r {
+            Ok(Ok(seen)) if seen == want => {}
+            other => rep.violation("C01/output/reading-changes-it", || json!({"printed_first": first, "printed_after_reading": second, "expected_reads": want, "observed": format!("{other:?}")})),
+        }
+    }
+}
+
 pub fn run(args: &Args) -> i32 {
     let shapes = all_shapes();
     let draws = args.tier.pick(24, 200);
@@ -609,6 +646,7 @@ pub fn run(args: &Args) -> i32 {
         rep
     });
     print_char_instances(&mut rep);
+    output_read_is_an_observation(&mut rep);
     let matrix_evals = rep.evaluations;
     let shards = 64;
     let per = args.tier.pick(4_000, 60_000);
